@@ -277,6 +277,10 @@ def run(ctx):
     import render as _render
     _render.layer_image_unconditional(ctx, rule='R5')
     _render.order(ctx, rule='R5')
+    # the slot a cel sits in is its layer index, also after validation (one push per slot of the raw row: I1)
+    import invariants as _inv
+    ok1, why1 = _inv.Inv(ctx).get('I1')
+    ctx.inst('R3', 'validated rows keep slot positions', ok1, why1, None, key='asefile::cel::CelsData::validate|R3|I1')
     import C09 as _c09
     import rule as _R
     _c09.level_source(_R.View(ctx, {'V7': 'R5'}))      # "visible" rests on the nesting levels as the file gives them (seed C19-k: u8)
